@@ -1,7 +1,7 @@
 //! Removing redundant files.
 
 use std::cmp::{max, min, Reverse};
-use std::collections::HashMap;
+use std::collections::{HashMap, HashSet};
 use std::fmt::{Display, Formatter};
 use std::hash::{Hash, Hasher};
 use std::io::{ErrorKind, Write};
@@ -617,6 +617,18 @@ impl FsCommand {
             | FsCommand::HardLink { link: file, .. }
             | FsCommand::RefLink { link: file, .. }
             | FsCommand::Move { source: file, .. } => &file.path,
+        }
+    }
+
+    /// Identifies the stored file that the path to be removed or replaced leads to.
+    /// The hard links of a file, and the symbolic links pointing to it, lead to the same file.
+    pub fn file_id(&self) -> FileId {
+        match self {
+            FsCommand::Remove { file, .. }
+            | FsCommand::SoftLink { link: file, .. }
+            | FsCommand::HardLink { link: file, .. }
+            | FsCommand::RefLink { link: file, .. }
+            | FsCommand::Move { source: file, .. } => file.metadata.file_id(),
         }
     }
 
@@ -1353,15 +1365,32 @@ where
                 for group in groups {
                     match partition(group, config, log) {
                         Ok(group) => {
-                            commands.extend(group.dedupe_script(&op, &devices).into_iter().filter(
-                                |cmd| match cmd.check_preconditions() {
+                            // The paths that lead to one stored file are processed together or
+                            // not at all: if a symbolic link has to stay, so does the file it
+                            // points to, otherwise the link would be left dangling.
+                            let mut refused = HashSet::new();
+                            let script: Vec<_> = group
+                                .dedupe_script(&op, &devices)
+                                .into_iter()
+                                .filter(|cmd| match cmd.check_preconditions() {
                                     Ok(()) => true,
                                     Err(e) => {
                                         log.warn(e);
+                                        refused.insert(cmd.file_id());
                                         false
                                     }
-                                },
-                            ))
+                                })
+                                .collect();
+                            commands.extend(script.into_iter().filter(|cmd| {
+                                let keep = !refused.contains(&cmd.file_id());
+                                if !keep {
+                                    log.warn(format!(
+                                        "Skipping {}: another path of the same file cannot be processed",
+                                        cmd.file_to_remove().display()
+                                    ));
+                                }
+                                keep
+                            }))
                         }
                         Err(e) => log.warn(e),
                     }
@@ -1389,9 +1418,27 @@ where
         // because they may depend on each other: a symbolic link has to be processed before
         // the file it points to is gone.
         .map(|(_, cmd_vec)| {
+            // When a command fails, the other paths of that file stay as they are, too.
+            let mut failed = HashSet::new();
             cmd_vec
                 .into_iter()
-                .map(|cmd| cmd.execute(should_lock, log))
+                .map(|cmd| {
+                    let file_id = cmd.file_id();
+                    if failed.contains(&file_id) {
+                        return Err(io::Error::new(
+                            io::ErrorKind::Other,
+                            format!(
+                                "Skipped {}: another path of the same file could not be processed",
+                                cmd.file_to_remove().display()
+                            ),
+                        ));
+                    }
+                    let result = cmd.execute(should_lock, log);
+                    if result.is_err() {
+                        failed.insert(file_id);
+                    }
+                    result
+                })
                 .collect::<Vec<_>>()
         })
         .flatten()
